@@ -2,9 +2,9 @@
    pack_ok, expected result of unpack), the proofs are in Proofs.PackBits / PackRoundtrip / PackRoundtripGraph /
    PackRoundtripMol / PackLayout / PackElements / PackProofs / PackRxn / PackRxnLen / PackV0 / F16Proofs. *)
 From Coq Require Import ZArith List Bool.
-From Model Require Import PyBase Pack PackSpec PackSpecV0 PackApi PackRxnApi PackStereo PackStereoSpec F16.
+From Model Require Import PyBase Graph StereoRegistry Pack PackSpec PackSpecV0 PackApi PackRxnApi PackStereo PackStereoSpec F16.
 From Gen Require Import Elements.
-From Proofs Require Import PackBits PackRoundtrip PackRoundtripGraph PackRoundtripMol PackLayout PackElements PackApiProofs PackProofs PackRxn PackRxnLen PackV0 PackV0Unpack PackStereoProofs PackStereoDisjoint PackApiExt F16Proofs.
+From Proofs Require Import PackBits PackRoundtrip PackRoundtripGraph PackRoundtripMol PackLayout PackElements PackApiProofs PackProofs PackRxn PackRxnLen PackV0 PackV0Unpack PackStereoProofs PackStereoDisjoint PackApiRegistry PackApiExt F16Proofs.
 Import ListNotations.
 Open Scope Z_scope.
 
@@ -229,6 +229,25 @@ Theorem C10_api_roundtrip : forall (atoms : list patom) (paths : list (list Z)) 
     api_unpack paths (bytes ++ suf) = Ok (map uatom_of atoms, ladj_of_atoms atoms, Z.of_nat (length bytes)).
 Proof. exact api_roundtrip. Qed.
 Print Assumptions C10_api_roundtrip.
+
+(* the disjointness hypothesis DISCHARGED from the model of the registry construction (property C12: Model.StereoRegistry,
+   cumulenes / stereogenic_cumulenes incl. fix 2e29c31; theorem sg_cumulenes_disjoint): when the path list is the key
+   list of stereogenic_cumulenes computed by the registry model on a well-formed molecule graph, the registered paths
+   never share an atom, and the round trip incl. the labels needs no hypothesis on the paths.  That g and atoms describe
+   the same real molecule and that the registry model computes the real path list is the correspondence (reg_tie) *)
+Theorem C10_registry_paths_disjoint : forall (fs fd : Z -> bool) (g : mol) ps, wf_mol g = true -> cumulenes fd g = Ok ps ->
+  paths_disjoint_b (map fst (sg_cumulenes_of fs g ps)) = true.
+Proof. exact registry_paths_disjoint. Qed.
+Print Assumptions C10_registry_paths_disjoint.
+
+Theorem C10_api_roundtrip_registry : forall (fs fd : Z -> bool) (g : mol) ps (atoms : list patom) (suf : list Z),
+  wf_mol g = true -> cumulenes fd g = Ok ps ->
+  let paths := map fst (sg_cumulenes_of fs g ps) in
+  pack_ok (api_pmol atoms paths) = true -> labels_sym_b atoms = true -> labelled_registered_b atoms paths = true ->
+  exists bytes, api_pack atoms paths = Ok bytes /\
+    api_unpack paths (bytes ++ suf) = Ok (map uatom_of atoms, ladj_of_atoms atoms, Z.of_nat (length bytes)).
+Proof. exact api_roundtrip_registry. Qed.
+Print Assumptions C10_api_roundtrip_registry.
 
 (* non-vacuity: F/C(Cl)=C=C=C(/F)Cl, one 4-atom path, the label on the central bond *)
 Theorem C10_api_roundtrip_example :
